@@ -54,3 +54,21 @@ for _n in _CHUNK_STALE[1:]:
     def _cog_update(case, v):
         return isinstance(case, dict) and case.get("chunking") != "one" and not case.get("ffb")
     rule("C10", _n, "update-raises:IndexError", "force_full_budget=False and chunk longer than one instance")(_cog_update)
+
+
+# ---- committee strategies with a scikit-learn BaggingClassifier (C09, G15-K): the bagging members are trained on
+# class *indices*; _aggregate_predict_probas matches the members' classes_ against the ensemble's class labels, which
+# only works by accident when the labels are 0..K-1 (and silently mis-maps columns when a member missed a class)
+_BAGGING_ENTRIES = {"QBC_KL": "QueryByCommittee", "BatchBALD": "BatchBALD", "GreedyBALD": "GreedyBALD"}
+for _entry, _comp in _BAGGING_ENTRIES.items():
+    def _bag(case, v, _entry=_entry):
+        return getattr(getattr(case, "entry", None), "name", None) == _entry
+    rule("C09", _comp, None, "ensemble = SklearnClassifier(BaggingClassifier): members trained on class indices")(_bag)
+
+
+# ---- SingleAnnotatorWrapper around an inner strategy that is only defined on unlabelled candidates (C07, G22)
+def _g22(case, v):
+    return isinstance(case, dict) and case.get("arbitrary_index_ok") is False and case.get("some_candidate_labelled")
+
+
+rule("C07", "SingleAnnotatorWrapper", None, "inner strategy needs unlabelled candidates and some candidate sample already carries a label")(_g22)
